@@ -34,6 +34,9 @@ pub mod anyhow {
 
 verus! {
 use anyhow::{Result, Context};
+#[verifier::external_body] pub broadcast proof fn axiom_string_key_model() ensures #[trigger] obeys_key_model::<String>() {}
+#[verifier::external_body] pub broadcast proof fn axiom_string_cloned(a: String, b: String) ensures #[trigger] cloned(a, b) ==> a == b {}
+
 pub assume_specification<'a, T: Copy>[Option::<&'a T>::copied](o: Option<&'a T>) -> (r: Option<T>)
     ensures r == (match o { Some(x) => Some(*x), None => None });
 pub assume_specification<T: Default>[std::mem::take](t: &mut T) -> (r: T)
@@ -224,7 +227,8 @@ impl HnswBackend {
                         if merge { old(self).doc_store@[doc_id].1.union_prefer_right(metadata@) } else { metadata@ })),
             r matches Ok(true) ==> (old(self).persistence.is_some() ==> exists|seq: u64| logged(WalOp::UpdateMetadata, doc_id, seq, Seq::<f32>::empty(), final(self).doc_store@[doc_id].1)),
     {
-        broadcast use vstd::std_specs::hash::group_hash_axioms;
+        broadcast use vstd::std_specs::hash::group_hash_axioms; broadcast use axiom_string_key_model; broadcast use axiom_string_cloned;
+        let ghost md = metadata@;
         if self.wal_inconsistent.load(Ordering::SeqCst) {
             anyhow::bail!("Metadata update rejected: WAL is in an inconsistent state.");
         }
@@ -249,6 +253,12 @@ impl HnswBackend {
             metadata
         };
 
+        let ghost um = updated_metadata@;
+        let ghost om = old_metadata@;
+        proof {
+            assert(om =~= old(self).doc_store@[doc_id].1);
+            assert(um =~= (if merge { om.union_prefer_right(md) } else { md }));
+        }
         let mut should_snapshot = false;
 
         // Log to WAL before updating in-memory state
@@ -278,8 +288,10 @@ impl HnswBackend {
                 seq_no,
                 timestamp: Self::timestamp(),
             };
+            proof { assert(entry.metadata@ =~= um); assert(entry.embedding@ =~= Seq::<f32>::empty()); }
             let mut wal = persistence.wal.write();
             wal.append(&entry)?;
+            proof { assert(logged(WalOp::UpdateMetadata, doc_id, seq_no, Seq::<f32>::empty(), um)); }
             if let Err(e) = persistence.rotate_wal_if_needed(&mut wal) {
                 error!(
                     error = %e,
@@ -308,6 +320,21 @@ impl HnswBackend {
         let store = &mut self.doc_store;
         store.metadata[internal_id] = updated_metadata.clone();
 
+        proof {
+            assert(self.doc_store.wf());
+            let e0 = old(self).doc_store.external_to_internal@;
+            assert(self.doc_store.external_to_internal@ == e0);
+            assert(e0.contains_key(doc_id) && e0[doc_id] == internal_id);
+            assert(self.doc_store.metadata@[internal_id as int]@ =~= um);
+            assert forall|d: u64| d != doc_id && #[trigger] e0.contains_key(d) implies self.doc_store@[d] == old(self).doc_store@[d] by {
+                let i = e0[d] as int;
+                assert(old(self).doc_store.internal_to_external@[i] == Some(d));
+                assert(old(self).doc_store.internal_to_external@[internal_id as int] == Some(doc_id));
+                assert(i != internal_id as int);
+            }
+            assert(self.doc_store@.dom() =~= old(self).doc_store@.dom());
+            assert(self.doc_store@ =~= old(self).doc_store@.insert(doc_id, (old(self).doc_store@[doc_id].0, um)));
+        }
         // Keep metadata inverted index in sync.
         {
             let meta_index = &mut self.metadata_index;
@@ -324,6 +351,7 @@ impl HnswBackend {
             }
         }
 
+        proof { assert(self.doc_store@.contains_key(doc_id)); assert(self.doc_store@[doc_id].1 == um); }
         Ok(true)
     }
 
